@@ -274,6 +274,26 @@ def eval_group(env, group, tier):
                         err = o.err.decode('utf-8', 'replace')
                         ok = (not o.panicked and o.rc == rc and sorted(o.rows()) == rows and (named is None and not err or named is not None and named in err))
                         emit(sub, ok, 'failing-root', dict(o.brief(), query=q, expected_rc=rc, expected_rows=rows))
+                # a directory that cannot be listed is reported whatever the ignore rules say about it (it is walked for what a negation may bring back)
+                ig = os.path.join(root, 'ctx')
+                os.mkdir(ig)
+                core.materialise(ig, {'.dockerignore': F(data='secret\n!secret/keep.txt\nalso\n!also/deep/keep.txt\n'), '.hgignore': F(data='syntax: glob\nnothing-here\n'), '.hg': D({}),
+                                      'a.txt': F(1), 'secret': D({'keep.txt': F(1), 'x': F(1)}), 'also': D({'deep': D({'keep.txt': F(1)})}), 'open': D({'closed': D({'y': F(1)})})})
+                for d_ in ('secret', 'also/deep', 'open/closed'):
+                    os.chmod(os.path.join(ig, d_), 0)
+                try:
+                    for opts in ('dockerignore', 'dockerignore dfs', 'dockerignore hgignore', 'hgignore', ''):
+                        sub = ['ignored-and-unlistable', opts]
+                        if only is not None and sub != only:
+                            continue
+                        q = 'name from ctx %s where is_file = true into list' % opts
+                        o = env.run([q], cwd=root, user=NOBODY)
+                        err = o.err.decode('utf-8', 'replace')
+                        ok = not o.panicked and o.rc == 1 and all(n in err for n in ('secret', 'deep', 'closed')) and 'a.txt' in o.rows()
+                        emit(sub, ok, 'unlistable-directory-under-ignore-rules', dict(o.brief(), query=q))
+                finally:
+                    for d_ in ('secret', 'also/deep', 'open/closed'):
+                        os.chmod(os.path.join(ig, d_), 0o755)
                 # a root that failed before LIMIT was reached has failed all the same (every N; the rows are a part of the full result)
                 for frm, named in (('bad, good, good', 'bad'), ('nonexistent, good, good', 'nonexistent'), ('file, good, good, good', 'file'), ('good, bad, good', 'bad'),
                                    ('nonexistent, good, bad', 'nonexistent')):
